@@ -39,6 +39,8 @@ var witnesses = []witness{
 		Case{Fn: "setunion", Args: []spec.V{set(spec.Dynamic, spec.DynamicVal()), set(spec.List(spec.String), lst(spec.String, sv("a")))}, Inj: []string{"dyn-members"}}},
 	{"C11-concat-dynamic-elems", "total/set-sequence", "c11ConcatDynamicElems", "total",
 		Case{Fn: "concat", Args: []spec.V{lst(spec.Dynamic, spec.DynamicVal()), lst(spec.Number, i64(1)), lst(spec.Bool, spec.KnownBool(true))}, Inj: []string{"dyn-members"}}},
+	{"C11-setproduct-tuple-dynamic-member", "total/collection", "c11SetProductTupleDynamicMember", "total",
+		Case{Fn: "setproduct", Args: []spec.V{spec.V{T: spec.Tuple(), St: spec.Known, Elems: []spec.V{i64(1), {T: spec.Object(), St: spec.Known}, spec.DynamicVal()}}.Retype(), lst(spec.Bool, spec.KnownBool(true))}, Inj: []string{"wrongtype"}}},
 	{"C11-slice-unknown-exact-length", "total/collection", "c11SliceUnknownExactLength", "total",
 		Case{Fn: "slice", Args: []spec.V{{T: spec.List(spec.String), St: spec.Unknown, Ref: &spec.Ref{MinLen: ip(1), MaxLen: ip(1)}}, i64(0), i64(1)}, Inj: []string{"unknown"}}},
 	{"C11-tolist-set-unknown-member", "total/conversion", "c11ToListSetUnknownMember", "total",
@@ -89,5 +91,50 @@ func TestWitnesses(t *testing.T) {
 			t.Fatal(err)
 		}
 		fmt.Printf("%s  %s :: %s\n", w.id, f.Kind, short(f.Msg))
+	}
+}
+
+// regressions are passing cases kept as regression replays (replay/C11): the
+// nearest well-behaved neighbours of the known findings, so that an
+// over-broad check or predicate shows up as a replay failure.
+var regressions = []struct {
+	name, facet, mode string
+	in                Case
+}{
+	{"merge-null-map", "total/collection", "total", Case{Fn: "merge", Args: []spec.V{spec.NullOf(spec.Map(spec.String)), {T: spec.Map(spec.String), St: spec.Known, Keys: []string{"k"}, Elems: []spec.V{sv("v")}}}, Inj: []string{"null"}}},
+	{"setunion-unknown-set", "total/set-sequence", "total", Case{Fn: "setunion", Args: []spec.V{set(spec.String, sv("a")), spec.UnknownOf(spec.Set(spec.String))}, Inj: []string{"unknown"}}},
+	{"slice-unknown-list-range", "total/collection", "total", Case{Fn: "slice", Args: []spec.V{{T: spec.List(spec.String), St: spec.Unknown, Ref: &spec.Ref{MinLen: ip(1), MaxLen: ip(3)}}, i64(0), i64(1)}, Inj: []string{"unknown"}}},
+	{"zipmap-null-key-tuple", "total/collection", "total", Case{Fn: "zipmap", Args: []spec.V{lst(spec.String, spec.NullOf(spec.String)), spec.V{T: spec.Tuple(), St: spec.Known, Elems: []spec.V{sv("v")}}.Retype()}, Inj: []string{"nested-null"}}},
+	{"bytesslice-out-of-range", "total/general", "total", Case{Fn: "bytesslice", Args: []spec.V{sv("hello"), i64(1), i64(9)}, Inj: []string{"num"}}},
+	{"indent-zero", "total/string", "total", Case{Fn: "indent", Args: []spec.V{i64(0), sv("a\nb")}, Inj: []string{"num"}}},
+	{"indent-fractional", "total/string", "total", Case{Fn: "indent", Args: []spec.V{num(spec.NFloat(0.5)), sv("a\nb")}, Inj: []string{"num"}}},
+	{"int-huge", "total/number", "total", Case{Fn: "int", Args: []spec.V{num(spec.NParse("1e400"))}, Inj: []string{"num"}}},
+	{"log-zero", "total/number", "total", Case{Fn: "log", Args: []spec.V{i64(0), i64(2)}, Inj: []string{"num"}}},
+	{"pow-overflow", "total/number", "total", Case{Fn: "pow", Args: []spec.V{num(spec.NFloat(1e300)), i64(2)}, Inj: []string{"num"}}},
+	{"range-infinite-end", "total/set-sequence", "total", Case{Fn: "range", Args: []spec.V{num(spec.Num{Route: "+inf"})}, Inj: []string{"num"}}},
+	{"format-index-too-big", "total/format", "total", Case{Fn: "format", Args: []spec.V{sv("%[7]v"), i64(1)}, Inj: []string{"str"}}},
+	{"format-known", "types/static-accepts/format-encoding", "accepts", Case{Fn: "format", Args: []spec.V{sv("%s=%05d%%"), sv("a"), i64(42)}}},
+	{"jsondecode-known", "types/static-accepts/format-encoding", "accepts", Case{Fn: "jsondecode", Args: []spec.V{sv("{\"a\":[1,true,null]}")}}},
+	{"lookup-unknown-key", "types/static-vs-dynamic/collection", "vs", Case{Fn: "lookup", Args: []spec.V{{T: spec.Object(spec.Attr{Name: "a", T: spec.String}), St: spec.Known, Keys: []string{"a"}, Elems: []spec.V{sv("x")}}, spec.UnknownOf(spec.String), i64(1)}, Inj: []string{"weak-unrefined"}}},
+}
+
+// TestRegressions (development aid, VERIF_REGRESS=<dir>) writes the regression replays.
+func TestRegressions(t *testing.T) {
+	dir := os.Getenv("VERIF_REGRESS")
+	if dir == "" {
+		t.Skip("set VERIF_REGRESS=<dir>")
+	}
+	for _, r := range regressions {
+		c := &facet.Ctx{}
+		if err := check(c, r.in, r.mode); err != nil {
+			t.Errorf("%s: regression case fails: %v", r.name, err)
+			continue
+		}
+		raw, _ := json.Marshal(r.in)
+		rec := facet.FailRecord{Property: "C11", Facet: r.facet, Input: raw}
+		b, _ := json.MarshalIndent(rec, "", " ")
+		if err := os.WriteFile(filepath.Join(dir, r.name+".json"), b, 0o644); err != nil {
+			t.Fatal(err)
+		}
 	}
 }
